@@ -52,6 +52,8 @@ def shards(tier):
             out.append({"buf": buf, "kind": "vmdk3", "slice": [i, 4]})
         out.append({"buf": buf, "kind": "handles"})
         out.append({"buf": buf, "kind": "vmdk-long"})
+        if buf == 8192:
+            out.append({"buf": buf, "kind": "vmdk-huge-read"})
         out.append({"buf": buf, "kind": "hdd"})
     return out
 
@@ -94,6 +96,10 @@ def run_shard(shard, ctx):
         # descriptors far beyond 10 / 64 KiB: many extents, or few extents behind a long comment / ddb block
         for n, pad in ((400, 0), (3, 12000), (2, 70000), (150, 300), (2, 1_200_000), (3, 4_300_000), (2, 17_000_000)):
             run_case({"kind": "vmdk-long", "n": n, "pad": pad}, ctx)
+    elif kind == "vmdk-huge-read":
+        # single requests of 33 MiB .. 77 MiB inside and across extents of 40 MiB / 1 MiB + 3 sectors / 36 MiB
+        for first in ("FLAT", "SPARSE"):
+            run_case({"kind": "vmdk-huge", "first": first}, ctx)
     elif kind == "handles":
         hk = ["sparse", "raw", "cowd", "sesparse"]
         for r in (1, 2, 3):
@@ -169,6 +175,8 @@ def run_case(case, ctx):
                 _case_vmdk(case, ctx, d, buf)
             elif case["kind"] == "vmdk-long":
                 _case_vmdk_long(case, ctx, d, buf)
+            elif case["kind"] == "vmdk-huge":
+                _case_vmdk_huge(case, ctx, d, buf)
             elif case["kind"] == "handles":
                 _case_handles(case, ctx, buf)
             else:
@@ -233,12 +241,23 @@ def _case_vmdk(case, ctx, d, buf):
     with open(os.path.join(d, "disk.vmdk"), "w", encoding="utf-8") as f:
         f.write(B.descriptor_text(ctype, lines))
     disk = ConcatDisk(parts)
+    # the process's working directory holds look-alikes of every extent file (another copy of the VM): extent names are
+    # relative to the descriptor, never to the working directory
+    decoy = os.path.join(d, "cwd-with-lookalikes")
+    os.makedirs(decoy, exist_ok=True)
+    for ln in lines:
+        with open(os.path.join(decoy, ln[3]), "wb") as f:
+            f.write(b"LOOKALIKE" * 57)
+    cwd = os.getcwd()
+    os.chdir(decoy)
     try:
         v = VMDK(Path(d) / "disk.vmdk")
     except Exception as e:
         ctx.violation(case, {"subject": "vmdk.descriptor.open", "kind": "exception", "exc": type(e).__name__,
                              "kinds": sorted(kinds)}, {"exception": repr(e)[:300]})
         return
+    finally:
+        os.chdir(cwd)
 
     def closer():
         for dsk in v.disks:
@@ -253,6 +272,69 @@ def _case_vmdk(case, ctx, d, buf):
                       {"got": len(v.disks), "expected": len(parts)})
         return
     _finish(ctx, case, v, v.read_sectors, disk, bounds[:-1], buf, "vmdk.descriptor", closer, v.sector_count)
+
+
+def _case_vmdk_huge(case, ctx, d, buf):
+    from dissect.hypervisor.disk.vmdk import VMDK
+
+    from mc.builders import vmdk as B
+    from mc.models import GuestDisk
+
+    ctx.outcome("vmdk-descriptor")
+    MBs = 2048  # sectors per MiB
+    sizes = [40 * MBs, MBs + 3, 36 * MBs]
+    lines, parts = [], []
+    for xi, sectors in enumerate(sizes):
+        if xi == 0 and case["first"] == "SPARSE":
+            grain = 128
+            n = (sectors + grain - 1) // grain
+            states = [DATA if i % 37 in (0, 5) else HOLE for i in range(n)]
+            idx = [i for i, st in enumerate(states) if st == DATA]
+            slots = [None] * n
+            for p, i in enumerate(idx[::-1]):
+                slots[i] = p
+            img = B.build_hosted(states, slots, grain, 512, sectors, layer=xi + 1)
+            m = B.model(states, grain, sectors, layer=xi + 1)
+            fn, kind = "huge-s001.vmdk", "SPARSE"
+        else:
+            # sparsely stamped flat file: 4 KiB of pattern at the start of every MiB, zeros elsewhere
+            from mc.vfile import Image as _Image
+
+            img = _Image("flat")
+            unit = 4096
+            states = [DATA if (u * unit) % (1 << 20) == 0 else ZERO for u in range(sectors * 512 // unit)]
+            for u, st in enumerate(states):
+                if st == DATA:
+                    img.put_pattern(u * unit, unit, xi + 1, u * unit)
+            tail = sectors * 512 - len(states) * unit
+            img.set_size(sectors * 512)
+            m = GuestDisk(sectors * 512, unit, states + ([ZERO] if tail else []), xi + 1)
+            fn, kind = f"huge-f{xi + 1:03d}.vmdk", "FLAT"
+        img.write_to(os.path.join(d, fn))
+        lines.append(("RW", sectors, kind, fn, 0 if kind == "FLAT" else None))
+        parts.append(m)
+    with open(os.path.join(d, "disk.vmdk"), "w", encoding="utf-8") as f:
+        f.write(B.descriptor_text("custom", lines))
+    disk = ConcatDisk(parts)
+    size = disk.size
+    v = VMDK(Path(d) / "disk.vmdk")
+    try:
+        if v.size != size:
+            ctx.violation(case, {"subject": "vmdk.descriptor.huge.size", "kind": "mismatch"}, {"got": v.size, "expected": size})
+            return
+        b0, b1 = sizes[0] * 512, (sizes[0] + sizes[1]) * 512
+        reqs = [(0, size), (4096, 33 << 20), (1 << 20, 39 << 20), (b1, 36 << 20), (b1 + 512, (35 << 20) + 100), (b0 - 512, size - b0 + 512),
+                (5 << 20, 70 << 20)]
+        sreqs = [(16, 0x10008), (0, sizes[0]), (sizes[0] + sizes[1], sizes[2]), (8, size // 512 - 8)]
+        ctx.nontrivial += len(reqs) + len(sreqs)
+        compare_reads(ctx, case, v, disk, reqs, "vmdk.descriptor.huge.read")
+        compare_sector_reads(ctx, case, v.read_sectors, disk, sreqs, "vmdk.descriptor.huge.read_sectors", 512)
+    finally:
+        for dsk in v.disks:
+            try:
+                dsk.fh.close()
+            except Exception:
+                pass
 
 
 def _case_vmdk_long(case, ctx, d, buf):
